@@ -192,6 +192,9 @@ Definition near_ok (sizes : list Z) (X : vec) : Prop :=
   Forall2 (fun n x => nearK x = itk_round x /\ inside_buffer n x = true) sizes X.
 Definition ok_at (m : smode) (sizes : list Z) (X : vec) : Prop :=
   match m with Linear => fov_ok sizes X | Nearest => near_ok sizes X end.
+(* inside ITK's buffer [-1/2, n-1/2) on every axis (hypothesis of the border-padding theorems) *)
+Definition buf_ok (sizes : list Z) (X : vec) : Prop :=
+  Forall2 (fun n x => inside_buffer n x = true) sizes X.
 End Resample.
 
 Section Lattice.
